@@ -429,11 +429,19 @@ def lua51_chunk(text):
     return (b"\x1bLuaQ\x00\x01\x04\x08\x04\x08\x00" + f).decode("ascii")
 
 
-def run_attacks():
+def run_attacks(after_another_context=False):
+    """after_another_context: a first context of this process has set up and used its own Lua runtime before the attacked
+    one is created (what the sandbox set-up does per runtime must happen for every runtime, not once per process)."""
     out = []
     canary_dir = scratch_dir("c06atk")
     with open(os.path.join(canary_dir, "x.lua"), "w") as f:
         f.write("return 'CANARY'")
+    first = None
+    if after_another_context:
+        first = new_ctx(lua=True)
+        first.add_page("Module:warm", 828, "local e = {} function e.f(frame) return 'w' end return e", model="Scribunto")
+        first.start_page("First")
+        first.expand("{{#invoke:warm|f}}")
     ctx = new_ctx(lua=True)
     ctx.add_page("Victim", 0, "victim body")
     ctx.add_page("Template:t", 10, "T")
@@ -456,7 +464,10 @@ def run_attacks():
             res = "EXC " + type(e).__name__
         n += 1
         if res.startswith(("GOT", "DELETED", "WROTE", "REPLACED")):
-            out.append(("attack_fails", {"attack": name, "lua": code[:200]}, res, "no"))
+            case = {"attack": name, "lua": code[:200]}
+            if after_another_context:
+                case["context"] = "second context of the process"
+            out.append(("attack_fails", case, res, "no"))
         after = sorted((p.title, p.body) for p in ctx.get_all_pages() if not p.title.startswith("Module:atk"))
         if after != before:
             out.append(("page_store_untouched", {"attack": name}, {"pages_after": len(after)}, {"pages_before": len(before)}))
@@ -467,6 +478,8 @@ def run_attacks():
             out.append(("filesystem_untouched", {"attack": name}, "file written", "nothing written"))
             os.remove(os.path.join(canary_dir, "written"))
     close_ctx(ctx)
+    if first is not None:
+        close_ctx(first)
     return out, n
 
 
@@ -501,7 +514,7 @@ def work(payload, skip, report):
         for o, case, ob, ex in res:
             acc.violation(o, case, ob, ex)
     else:
-        res, n = run_attacks()
+        res, n = run_attacks(len(payload) > 1 and payload[1] == "second_context")
         acc.case(n)
         acc.count("attacks", n)
         for o, case, ob, ex in res:
@@ -524,6 +537,7 @@ def main(run):
     chunks.append(("loader", [], 2))
     chunks.append(("loader", [], 3))
     chunks.append(("attacks",))
+    chunks.append(("attacks", "second_context"))
     for part in range(16):
         chunks.append(("helpers", part, 16, 1 if q else 2))
     for cid, acc, hung in run_chunks(work, chunks, nproc=run.nproc, case_timeout=300):
